@@ -80,7 +80,7 @@ impl AnySpec {
     /// broken equality in the library is visible): two rules are the same rule iff every field that
     /// takes part in enforcing them is equal; the id never matters. Fields that have no effect for the
     /// rule's strategy are ignored as documented on the rule types (breaker: max_allowed_rt only for
-    /// the slow-request strategy; hotspot: burst only for Reject, max queueing time only for Throttling).
+    /// the slow-request strategy; hotspot: burst only for Reject, max queueing time only for Throttling, both for a custom control strategy).
     pub fn same_rule(&self, o: &AnySpec) -> bool {
         match (self, o) {
             (AnySpec::Flow(a), AnySpec::Flow(b)) => {
@@ -112,7 +112,12 @@ impl AnySpec {
                     && a.threshold == b.threshold
                     && a.duration_s == b.duration_s
                     && sa == sb
-                    && ((a.ctrl == 0 && a.burst == b.burst) || (a.ctrl == 1 && a.max_queue_ms == b.max_queue_ms))
+                    && match a.ctrl {
+                        0 => a.burst == b.burst,
+                        1 => a.max_queue_ms == b.max_queue_ms,
+                        // a custom strategy may read either field
+                        _ => a.burst == b.burst && a.max_queue_ms == b.max_queue_ms,
+                    }
             }
             (AnySpec::Iso(a), AnySpec::Iso(b)) => a.res == b.res && a.threshold == b.threshold,
             (AnySpec::Sys(a), AnySpec::Sys(b)) => a.metric == b.metric && a.threshold == b.threshold && a.bbr == b.bbr,
